@@ -119,6 +119,7 @@ def _drive(cfg, part, dom, n, T, prm, P, RU, D, box, before, rng):
     rec = R.SessionRec(algo, P, extractor=ext, tid=cfg["id"], call_timeout=cfg.get("timeout", 60))
     rnd = random.Random(cfg["seed"] + 3)
     t0 = cfg.get("t0", 1)
+    midq = set(cfg.get("midq", ()))
     for i in range(T):
         pt = rec.pull(t0 + i)
         if rec.failed:
@@ -126,6 +127,10 @@ def _drive(cfg, part, dom, n, T, prm, P, RU, D, box, before, rng):
         ev = rec.events[-1]
         ev["prob"] = [int(round(float(p) * (1 << 20))) for p in algo.prob]
         ev["inside"] = rec.tree.containing(pt)
+        if i in midq:          # a recommendation query between pull and receive_reward must not disturb the pending credit
+            rec.glp()
+            if rec.failed:
+                break
         if cfg.get("rewards") is not None:
             r = cfg["rewards"][i] / RU
         else:
